@@ -12,6 +12,7 @@ CONSTANTS
   MaxR = 0
   MaxMsg = 0
   PipeWriteLock = TRUE
+  C2ClosesPipe = TRUE
   EnvAtRest = FALSE
   History = TRUE
 SPECIFICATION Spec
